@@ -16,7 +16,9 @@
 (***************************************************************************)
 EXTENDS Naturals, Sequences, FiniteSets, TLC, SequencesExt, Json
 
-Custom == {"P1", "P2", "P3", "P4"}
+\* P1x: a profile registered under P1's name with P1's properties but WITHOUT macros of its own
+Custom == {"P1", "P2", "P3", "P4", "P1x"}
+Base(p) == IF p = "P1x" THEN "P1" ELSE p
 \* macros defined by each profile: macro name -> literal accepted by that version
 MacrosOf(p) == CASE p = "P1" -> [integer |-> "p1i", mynew |-> "p1n"]
                  [] p = "P2" -> [integer |-> "p2i", absolute_size |-> "p2s"]
@@ -38,14 +40,15 @@ MacroOf(id) == CASE id \in {"P1.a", "P2.a", "P3.a", "P4.a", "B.z"} -> "integer"
                  [] id \in {"P1.b", "P3.b"} -> "mynew"
                  [] id \in {"P2.c", "B.fs"} -> "absolute_size"
                  [] OTHER -> "nomacro"
-Registered(names, p) == p \in Range(names)
+Registered(names, p) == \E n \in Range(names) : Base(n) = p
 \* F: the set of probe literals a registry with these contents accepts for each probe
 F(names, id) ==
     IF id = "none" THEN {}
     ELSE IF id = "B.color" THEN (IF Registered(names, "B") THEN {"red"} ELSE {})
+    ELSE IF id = "P1.b" /\ "P1x" \in Range(names) THEN {"p1x"}          \* the macro-less variant spells this pattern out
     ELSE (IF Registered(names, Owner(id)) THEN {EnvLit(names, MacroOf(id))} ELSE {})
          \cup (IF id = "B.z" /\ Registered(names, "P4") THEN {"p4z"} ELSE {})
-PropsOf(p) == CASE p = "P1" -> {"p1-a", "p1-b"} [] p = "P2" -> {"p2-a", "p2-c"} [] p = "P3" -> {"p3-a", "p3-b"}
+PropsOf(p) == CASE p \in {"P1", "P1x"} -> {"p1-a", "p1-b"} [] p = "P2" -> {"p2-a", "p2-c"} [] p = "P3" -> {"p3-a", "p3-b"}
                 [] p = "P4" -> {"p4-a", "z-index"} [] p = "B" -> {"z-index", "font-size", "color"} [] OTHER -> {}
 Known(names) == UNION {PropsOf(p) : p \in Range(names)}
 
